@@ -115,6 +115,68 @@ def report_order(ctx, rep, rule, methods, floor=None):
     return n
 
 
+def report_marginal_index(ctx, rep, rule, methods):
+    """`self.univariates[i]`: the position must be a position in self.columns (the two lists are filled in parallel).  Positive
+    evidence of a mismatch: i enumerates a filtered copy / a slice of the columns, or another table's columns."""
+    from ..idioms import single_def
+    cls = ctx.prog.cls(GM)
+    for name in methods:
+        fn = cls.lookup(name)
+        if fn is None:
+            continue
+        sn = fn.self_name
+
+        def is_columns(e):
+            return is_self_attr(e, sn, 'columns') or (isinstance(e, ast.Call) and call_name(e) in ('list', 'tuple') and e.args and is_columns(e.args[0]))
+
+        def seq_verdict(seq, depth=0):
+            """'same' / ('differs', why) / None for a sequence whose positions index the marginals"""
+            if is_columns(seq):
+                return 'same'
+            if isinstance(seq, ast.Name) and depth < 4:
+                d = single_def(fn.node, seq.id)
+                return seq_verdict(d, depth + 1) if isinstance(d, ast.AST) else None
+            if isinstance(seq, ast.ListComp) and len(seq.generators) == 1 and is_columns(seq.generators[0].iter) and isinstance(seq.elt, ast.Name) \
+                    and isinstance(seq.generators[0].target, ast.Name) and seq.elt.id == seq.generators[0].target.id:
+                return ('differs', f'`{short(seq, 60)}` skips columns, so later positions shift') if seq.generators[0].ifs else 'same'
+            if isinstance(seq, ast.Subscript) and is_columns(seq.value) and isinstance(seq.slice, ast.Slice) and seq.slice.lower is not None:
+                return ('differs', f'`{short(seq, 60)}` starts after the first column')
+            if isinstance(seq, ast.Attribute) and seq.attr in ('columns', 'index') and isinstance(seq.value, ast.Name) and seq.value.id in fn.params:
+                return ('differs', f'`{short(seq, 60)}` is the order of the argument, not the training order')
+            return None
+        for sub in walk_no_nested(fn.node):
+            if not (isinstance(sub, ast.Subscript) and is_self_attr(sub.value, sn, 'univariates')) or isinstance(sub.slice, ast.Slice):
+                continue
+            idx = sub.slice
+            verdict = None
+            if isinstance(idx, ast.Call) and call_name(idx) == 'index' and isinstance(idx.func, ast.Attribute) and is_columns(idx.func.value):
+                verdict = 'same'
+            elif isinstance(idx, ast.Call) and call_name(idx) == 'get_loc' and isinstance(idx.func, ast.Attribute) and is_columns(idx.func.value):
+                verdict = 'same'
+            elif isinstance(idx, ast.Name):
+                for lp in walk_no_nested(fn.node):
+                    gens = [(lp.target, lp.iter)] if isinstance(lp, ast.For) else [(g.target, g.iter) for g in lp.generators] if isinstance(lp, (ast.ListComp, ast.GeneratorExp, ast.DictComp, ast.SetComp)) else []
+                    for tgt, it in gens:
+                        if isinstance(it, ast.Call) and call_name(it) == 'enumerate' and it.args and isinstance(tgt, ast.Tuple) and tgt.elts \
+                                and isinstance(tgt.elts[0], ast.Name) and tgt.elts[0].id == idx.id:
+                            verdict = seq_verdict(it.args[0])
+                        elif isinstance(it, ast.Call) and call_name(it) == 'range' and len(it.args) == 1 and isinstance(tgt, ast.Name) and tgt.id == idx.id \
+                                and isinstance(it.args[0], ast.Call) and call_name(it.args[0]) == 'len' and it.args[0].args:
+                            verdict = seq_verdict(it.args[0].args[0])
+                if verdict is None:
+                    d = single_def(fn.node, idx.id)
+                    if isinstance(d, ast.Call) and call_name(d) in ('index', 'get_loc') and isinstance(d.func, ast.Attribute) and is_columns(d.func.value):
+                        verdict = 'same'
+            cons = f'{name}: position of the marginal'
+            if verdict == 'same':
+                rep.ok(rule, fn, sub, f'`{short(sub, 50)}`: a position in self.columns', construct=cons)
+            elif isinstance(verdict, tuple):
+                rep.bad(rule, fn, sub, f'`{short(sub, 50)}` pairs a column with the marginal at its position in another sequence: {verdict[1]}; the column is scored with another column\'s marginal',
+                        construct=cons)
+            else:
+                rep.undecided(rule, fn, sub, f'`{short(sub, 50)}`: what the position counts was not derived', construct=cons)
+
+
 # --------------------------------------------------------------------------- space kinds
 def space_analysis(ctx):
     """Kind-check every path of the Gaussian-copula methods; returns (SpaceKind, facts)."""
